@@ -178,3 +178,23 @@ def event_entries(P):
         for k in P.slots().get(slot, ()):
             ent[k] = (P.fns[k], 'slot ' + slot)
     return ent
+
+
+def module_loader(P):
+    """The function that loads ONE module: it looks up `module_constructor` in the object it opened (found by that
+    look-up, so that renaming it or moving the "already loaded?" test to its callers does not lose the anchor)."""
+    cache = P.__dict__.setdefault('_module_loader', [])
+    if cache:
+        return cache[0]
+    found = None
+    for f in P.fns.values():
+        if f.unit.startswith('tests/') or f.unit.startswith('modules/'):
+            continue
+        for s in f.calls('dlsym'):
+            a = s.ev['args']
+            if len(a) > 1 and a[1].get('k') == 'str' and a[1].get('v') == 'module_constructor':
+                found = f
+    if found is None:
+        found = P.need_fn('module_load')
+    cache.append(found)
+    return found
